@@ -172,9 +172,18 @@ func genCase(g *rapid.Generator[[]byte]) func(t *rapid.T) harness.Case {
 
 const rule = "tree = Parse(G1/G2/G3 input) x 3 soft-break behaviours x IgnoreRaw x FilterTag{nil, GFM, always, never, generated name set}; oracle = lock-step match of AppendBlock output against the reference renderer's token list (text and attribute values entity-decoded, raw HTML byte for byte or '<'->'&lt;' under a filter), plus determinism, purity, empty output for definitions, Render == AppendBlock outputs joined by blank lines, prefix preservation, RenderHTML == default; non-trivial = tree has an image, character reference, raw HTML, soft break, list or reference definition"
 
-func TestProperty(t *testing.T) {
-	harness.Run(t, harness.Plan{Prop: "C10", Suppress: findings.Suppressor("C10"), Checks: []harness.Check{
+func plan() harness.Plan {
+		return harness.Plan{Prop: "C10", Suppress: findings.Suppressor("C10"), Checks: []harness.Check{
 		{Name: "render", Quick: 30000, Thorough: 400000, Gen: genCase(gen.Doc()), Prop: prop, Rule: rule},
 		{Name: "render_lines", Quick: 15000, Thorough: 200000, Gen: genCase(gen.Lines()), Prop: prop, Rule: "G2 only: " + rule},
-	}})
+	}}
+}
+
+func TestProperty(t *testing.T) {
+	harness.Run(t, plan())
+}
+
+// FuzzProperty is the native coverage-guided fuzz entry (thorough tier).
+func FuzzProperty(f *testing.F) {
+	harness.FuzzTarget(f, plan(), "render", gen.SeedCorpus())
 }
